@@ -43,6 +43,10 @@ pub struct ServerParams {
     pub license_blob: Vec<u8>,
     /// the server speaks TLS 1.2 at most (many deployed servers do); only with the RSA fixtures
     pub tls12: bool,
+    /// what the server puts into TS_SHAREDATAHEADER.uncompressedLength: 0 = the share-control totalLength (Windows
+    /// servers), 1 = the length from pduType2 on, totalLength - 14 (the examples of MS-RDPBCGR section 4, rdesktop-style
+    /// servers), 2 = the length of the payload behind the header (FreeRDP-style servers). Receivers size nothing by it.
+    pub sd_length_convention: u8,
     pub license_sec_extra: u16,
     /// LICENSE_PREAMBLE flags: version 2.0 / 3.0 in the low nibble, EXTENDED_ERROR_MSG_SUPPORTED (0x80) on top
     pub license_flags: u8,
@@ -85,6 +89,7 @@ impl ServerParams {
             license_kind: 1,
             license_blob: vec![],
             tls12: false,
+            sd_length_convention: 0,
             license_sec_extra: 0,
             license_flags: 0x03,
             share_id: 0x000103ea,
@@ -148,6 +153,7 @@ impl ServerParams {
         p.license_blob = ctx.bytes("blob", bl.min(8)).into_iter().cycle().take(bl).collect();
         p.license_sec_extra = if ctx.chance("lic_0200", 1, 3) { 0x0200 } else { 0 };
         p.tls12 = ctx.chance("tls12_server", 1, 3);
+        p.sd_length_convention = *ctx.pick("sd_length_convention", &[0u8, 0, 0, 1, 2]);
         p.license_flags = *ctx.pick("lic_preamble_flags", &[0x03u8, 0x03, 0x03, 0x83, 0x83, 0x02, 0x82]);
         p.share_id = match ctx.choose("share_id_c", 4) { 0 => 0x000103ea, 1 => 0, 2 => 0xffffffff, _ => ctx.choose("share_id", 1 << 32) as u32 };
         p.source_desc = match ctx.choose("src_desc", 4) { 0 => b"RDP\0".to_vec(), 1 => vec![], 2 => b"MSTSC\0".to_vec(), _ => { let n = ctx.choose("src_len", 40) as usize; vec![b'x'; n] } };
@@ -425,7 +431,7 @@ pub fn share_control(p: &ServerParams, pdu_type: u16, body: &Wr) -> Wr {
 
 pub fn share_data_raw(p: &ServerParams, share_id: u32, typ2: u8, payload: &Wr) -> Wr {
     let mut b = Wr::new();
-    b.u32le("sd.shareId", share_id).u8("sd.pad1", 0).u8("sd.streamId", p.stream_id).u16le("sd.uncompressedLength", (payload.len() + 18) as u16)
+    b.u32le("sd.shareId", share_id).u8("sd.pad1", 0).u8("sd.streamId", p.stream_id).u16le("sd.uncompressedLength", (payload.len() + match p.sd_length_convention { 0 => 18, 1 => 4, _ => 0 }) as u16)
         .u8("sd.pduType2", typ2).u8("sd.compressedType", 0).u16le("sd.compressedLength", 0);
     b.append(payload);
     share_control(p, 0x17, &b)
